@@ -9,7 +9,7 @@ from pathsum import ERR, NONE, OK, SOME, show_term
 from witness import S
 
 LEVEL = "other"
-RULE_TEXT = ("C14-W compile-fail witnesses: colliding declaration pairs produced by the oracle (identical spellings, "
+RULE_TEXT = ("C14-S also: inside the tree module paths() and is_query() are asked of the same header of a declaration (spellings are filed under their own kind). C14-W compile-fail witnesses: colliding declaration pairs produced by the oracle (identical spellings, "
              "short = long, optional-node induced, user vs requested standard command, random pairs sharing one expanded "
              "spelling) must fail inside #[microscpi::interface] with CommandExists for commands / QueryExists for queries; "
              "each has a twin differing only in the colliding spelling that must build (so a witness failing for another "
@@ -296,6 +296,41 @@ def rule_S(ck):
             ck.judge(not bad, "C14-S", "%s:all-paths" % b["def"].split("::")[-1], "iterates all of paths()", "not every expanded path is inserted: %s" % bad, hir.loc(b["value"]))
     if n_iter == 0:
         ck.skip("C14-S", "insert:paths-iteration", "no function iterating Command::paths() found; decided by C14-W")
+    # the spellings entered for a declaration and the kind of slot they occupy come from one and the same header: inside
+    # the tree module `paths()` and `is_query()` are asked of the same field of the declaration. Spellings taken from
+    # another header (an alias, a legacy form) but filed under the kind of the primary one occupy the wrong slot - the
+    # collision with a handler of their real kind goes unnoticed and a collision-free set is refused.
+    def chain(e):
+        ch = []
+        while isinstance(e, dict):
+            k_ = e.get("k")
+            if k_ in ("AddrOf", "Unary", "Try", "Paren", "DropTemps"):
+                e = e.get("e")
+            elif k_ == "MethodCall" and e["name"] in ("clone", "as_ref", "borrow", "deref", "as_deref", "iter"):
+                e = e["recv"]
+            elif k_ == "Field":
+                ch.append(e["name"])
+                e = e["e"]
+            else:
+                break
+        return tuple(reversed(ch))
+    src_paths, src_kind = {}, {}
+    for b in m.facts["bodies"]:
+        if not b["def"].startswith("microscpi_macros::tree::"):
+            continue
+        for x in hir.walk(b["value"]):
+            if x.get("k") == "MethodCall" and (x.get("callee") or "").endswith("::Command::paths"):
+                src_paths.setdefault(chain(x["recv"]), hir.loc(x))
+            if x.get("k") == "MethodCall" and (x.get("callee") or "").endswith("::Command::is_query"):
+                src_kind.setdefault(chain(x["recv"]), hir.loc(x))
+    if src_paths and src_kind and all(src_kind):
+        for ch_, loc_ in sorted(src_paths.items()):
+            ck.judge(ch_ in src_kind, "C14-S", "tree:spellings-and-kind-from-one-header:%s" % (".".join(ch_) or "<other value>"),
+                     "paths() and is_query() are asked of the same header (.%s)" % ".".join(ch_),
+                     "spellings are taken from %s but the slot kind from %s: spellings of another header are filed under the kind of this one (a collision in their own kind goes unnoticed)"
+                     % ("." + ".".join(ch_) if ch_ else "a header that is not a field of the declaration", sorted("." + ".".join(k_) for k_ in src_kind)), loc_)
+    else:
+        ck.skip("C14-S", "tree:spellings-and-kind-from-one-header", "paths()/is_query() are not both called on fields of the declaration inside the tree module; decided by C14-W")
     # interface(): the result of the insertion is consumed (unwrap / expect / ? / match), never discarded
     n = 0
     for b in m.facts["bodies"]:
